@@ -275,6 +275,9 @@ def r9(ctx):
     c01.r1(ctx)
     c01.r3(ctx)
     c01.r6(ctx)
+    # ... and decoding returns the joined token bytes untouched (R-C04-11 re-evaluated)
+    from rules import c04
+    c04.r11(ctx)
 
 
 @rule('C02', 'R-C02-10', 'prerequisite (the tables train_bpe writes are well formed)',
